@@ -32,7 +32,7 @@ U, LNZ, LQ = "U", "Lnz", "L?"
 
 class LI(absint.Interp):
     def __init__(self, prog, summaries):
-        absint.Interp.__init__(self, prog, emit=(), inline=(), pure_syms=(), max_paths=60000)
+        absint.Interp.__init__(self, prog, emit=(), inline=(), pure_syms=(), max_paths=int(__import__("os").environ.get("AJ_LATCH_PATHS", "60000")))
         self.summaries = summaries      # name -> set of post classes
         self.max_depth = 6
         self.split_bool_returns = True
@@ -388,7 +388,15 @@ def standalone_exits(prog, name, entry_cls):
 
 
 def run(ctx, prog, rule="R-LATCH", want_c16=False):
+    import os
     violations, post, entry, exits, problems, fns = analyse(prog)
+    if any("path budget exceeded" in pr for pr in problems) and "AJ_LATCH_PATHS" not in os.environ:
+        # an unusual loop shape (e.g. do/while with an inlined test) needs more paths: one slower retry
+        os.environ["AJ_LATCH_PATHS"] = "480000"
+        try:
+            violations, post, entry, exits, problems, fns = analyse(prog)
+        finally:
+            del os.environ["AJ_LATCH_PATHS"]
     for pr in problems:
         ctx.brk(rule, pr)
     seen = set()
